@@ -13,7 +13,7 @@ Theorem C01_exact_suspended : forall c t ct, checkk KSusp c t ct = true ->
   forall s, reach c t s ->
   forall lasti st tr, In (false, lasti, st, tr) (obs c s) ->
   trickery c t false lasti st = TOk (expected tr).
-Proof. intros c t ct Hc s Hr lasti st tr Hin. exact (analysis_exact KSusp c t ct Hc s Hr false lasti st tr Hin eq_refl). Qed.
+Proof. intros c t ct Hc s Hr lasti st tr Hin. exact (analysis_exact KSusp c t ct Hc s Hr false lasti st tr Hin (or_introl (conj eq_refl eq_refl))). Qed.
 Print Assumptions C01_exact_suspended.
 
 (* what [expected] says, spelled out: one entry per truth entry that is not still entering,
